@@ -1,4 +1,5 @@
 import Beetswap.Proofs.Server
+import Beetswap.Proofs.ServerLinkThms
 /-!
 # C07 — Server sends a peer only blocks it currently wants
 -/
@@ -44,5 +45,46 @@ theorem sent_is_available (s : State) (seq : Nat) (obs : Nat → Option Nat) (h 
 theorem disconnect_drops (s : State) (p : Nat) :
     (disconnected s p).wl[p]? = none ∧ ∀ k, ¬ Waits (disconnected s p) p k :=
   Proofs.Server.disconnect_drops s p
+
+
+/-! ### The whole pipeline: server behaviour, swarm routing (`NotifyHandler::Any`), one handler per
+connection (`Model/ServerLink`), for every schedule -/
+section Pipeline
+open Beetswap.ServerLink Beetswap.ServerSink
+open Beetswap.Proofs.ServerLink (Holds Connected ids deliverVia okAns)
+open Beetswap.Proofs.ServerSink (pendingOf)
+
+/-- C07 carried to the pipeline: what a drain adds to the behaviour's queue are blocks the peer's
+record held when the drain started, with bytes that were available for that CID. -/
+theorem dispatched_was_wanted (s : ServerLink.State) (hr : ServerLink.Reachable s) (obs : Nat → Option Nat) (e : Ev)
+    (he : e ∈ (ServerLink.step s (.drain obs)).outbox) (hnew : e ∉ s.outbox) (k d : Nat) (hk : (k, d) ∈ e.blocks) :
+    Wants s.sv e.peer k ∧ Available s.sv k d :=
+  Proofs.ServerLink.dispatched_was_wanted s hr obs e he hnew k d hk
+
+/-- At most one copy: a dispatched event is accepted by at most one connection … -/
+theorem never_two_connections (s : ServerLink.State) (hr : ServerLink.Reachable s) (n c1 c2 : Nat) (l1 l2 : Link)
+    (h1 : s.links[c1]? = some l1) (h2 : s.links[c2]? = some l2)
+    (m1 : n ∈ ids l1.cmds ∨ n ∈ ids l1.delivered) (m2 : n ∈ ids l2.cmds ∨ n ∈ ids l2.delivered) : c1 = c2 :=
+  Proofs.ServerLink.never_two_connections s hr n c1 c2 l1 l2 h1 h2 m1 m2
+
+/-- … occurs once wherever it is … -/
+theorem no_duplicates (s : ServerLink.State) (hr : ServerLink.Reachable s) :
+    (ids s.outbox).Nodup ∧ (ids s.lost).Nodup ∧
+    ∀ (c : Nat) (l : Link), s.links[c]? = some l → (ids l.cmds).Nodup ∧ (ids l.delivered).Nodup :=
+  Proofs.ServerLink.no_duplicates s hr
+
+/-- … and the handler writes no block more often than it was handed it: the blocks written on a
+connection are a subsequence of the blocks of the events handed to that connection. -/
+theorem written_sublist_delivered (s : ServerLink.State) (hr : ServerLink.Reachable s) (c : Nat) (l : Link)
+    (hl : s.links[c]? = some l) : List.Sublist (writtenOf l.outs) (blocksOf l.delivered) :=
+  Proofs.ServerLink.written_sublist_delivered s hr c l hl
+
+/-- A peer that never asked gets nothing: an event reaches only connections of the peer it was
+dispatched to. -/
+theorem routed_to_own_peer (s : ServerLink.State) (hr : ServerLink.Reachable s) (c : Nat) (l : Link)
+    (hl : s.links[c]? = some l) (e : Ev) (he : e ∈ l.cmds ∨ e ∈ l.delivered) : e.peer = l.peer :=
+  Proofs.ServerLink.routed_to_own_peer s hr c l hl e he
+
+end Pipeline
 
 end Beetswap.Props.C07
